@@ -431,10 +431,14 @@ func (pk *Packet) ConnectDecode(buf []byte) error {
 	}
 
 	if pk.Connect.PasswordFlag {
-		pk.Connect.Password, _, err = decodeBytes(buf, offset)
+		pk.Connect.Password, offset, err = decodeBytes(buf, offset)
 		if err != nil {
 			return ErrMalformedPassword
 		}
+	}
+
+	if offset != len(buf) {
+		return ErrMalformedPacket // payload fields other than those announced by the flags [MQTT-3.1.3-1]
 	}
 
 	return nil
@@ -491,6 +495,14 @@ func (pk *Packet) ConnectValidate() Code {
 
 	if !pk.Connect.WillFlag && pk.Connect.WillRetain {
 		return ErrProtocolViolationWillFlagSurplusRetain // [MQTT-3.1.2-13]
+	}
+
+	if !pk.Connect.WillFlag && pk.Connect.WillQos > 0 {
+		return ErrProtocolViolationQosOutOfRange // [MQTT-3.1.2-11] will qos must be 0 if the will flag is 0
+	}
+
+	if pk.ProtocolVersion < 5 && pk.Connect.PasswordFlag && !pk.Connect.UsernameFlag {
+		return ErrProtocolViolationFlagNoUsername // v3.1.1 [MQTT-3.1.2-22] no password flag without the username flag
 	}
 
 	return CodeSuccess
